@@ -226,8 +226,14 @@ class MethodWalker:
         elif isinstance(st, ast.If):
             self._scan_expr(st.test, env, ci, fn, cond, depth)
             t = unparse(st.test)
+            # an `elif` arm runs only when the tests before it failed: its condition carries them
+            if getattr(st, "_elif_of", None) is not None:
+                t = f"{st._elif_of} and {t}"
             self._walk_body(st.body, env, ci, fn, t, depth)
-            self._walk_body(st.orelse, env, ci, fn, f"not ({t})", depth)
+            neg = f"not ({unparse(st.test)})" if getattr(st, "_elif_of", None) is None else f"{st._elif_of} and not ({unparse(st.test)})"
+            if len(st.orelse) == 1 and isinstance(st.orelse[0], ast.If):
+                st.orelse[0]._elif_of = neg  # type: ignore[attr-defined]
+            self._walk_body(st.orelse, env, ci, fn, neg, depth)
         elif isinstance(st, ast.Return):
             if st.value is not None:
                 self._scan_expr(st.value, env, ci, fn, cond, depth)
